@@ -193,7 +193,7 @@ Section WithHash.
                     match acc with
                     | Some ix =>
                       match alookup p (w_stages w) with
-                      | Some (Some s) => if validate p s then add_stage ix p s else None
+                      | Some (Some s) => if stage_path_ok p && validate p s then add_stage ix p s else None
                       | _ => None
                       end
                     | None => None
